@@ -14,6 +14,7 @@ mod parsec;
 mod rows;
 mod savelog;
 mod tok;
+mod tostr;
 mod util;
 mod vmrun;
 
@@ -41,6 +42,8 @@ fn main() {
         "parse" => parsec::cmd_parse(&opts),
         "limits" => vmrun::cmd_limits(&opts),
         "savelog" => savelog::cmd_savelog(&opts),
+        "tostr" => tostr::cmd_tostr(&opts),
+        "probe" => tostr::cmd_probe(&opts),
         c => {
             eprintln!("unknown command {}", c);
             std::process::exit(2)
